@@ -290,9 +290,11 @@ def cases(tier):
         yield {'label': 'spelling', 'tag': tag}
     # entity equivalences
     for name in ('x', 'sequence-item', 'a-b-c', 'x_y', 'x.y', 'q-', 'x9'):
-        for mods in [['html_quote']] + [[m] for m in MODS] + \
-                [list(p) for p in itertools.permutations(MODS[5:10], 2)]:
-            if name != 'x' and len(mods) == 2 and mods[0] != 'lower':
+        for mods in [['html_quote'], []] + [[m] for m in MODS] + \
+                [list(p) for p in itertools.permutations(MODS[5:10], 2)] + \
+                [list(p) for p in itertools.permutations(MODS[:4], 3)] + \
+                [[m, m] for m in MODS[:3]]:
+            if name != 'x' and len(mods) >= 2 and mods[0] != 'lower':
                 continue
             yield {'label': 'entity', 'mods': mods, 'name': name}
 
